@@ -252,6 +252,14 @@ static int cmd_exec(int argc, char** argv)
     ss << in.rdbuf();
     Json j = Json::parse(ss.str());
     const Json& pj = j.has("plan") ? j.at("plan") : j;
+    // a violation that depends on what the same PROCESS executed before (state the library keeps outside its
+    // handles) is replayed as a history: the earlier plans run first, in order, in this process
+    if (j.has("history"))
+        for (auto& h : j.at("history").a)
+        {
+            Plan hp = Plan::from_json(h);
+            (void)run_plan(hp, false);
+        }
     Plan p = Plan::from_json(pj);
     Json res = run_plan(p, trace);
     if (trace && res.has("trace"))
